@@ -107,12 +107,13 @@ def random_spsrs(rng, cfg, valid=True):
     return sp
 
 
-def random_cpsr(rng, cfg, mode=None, thumb=None, it=None, valid=True):
+def random_cpsr(rng, cfg, mode=None, thumb=None, it=None, valid=True, e=0):
     modes = legal_modes(cfg)
     m = MODES[mode if mode is not None else rng.choice(modes)]
     t = rng.getrandbits(1) if thumb is None else int(thumb)
-    v = rng.getrandbits(32) & 0xF80F03C0        # NZCVQ GE E A I F
-    v &= ~(1 << 9)                                # E = 0 (instruction fetch honours E in this code base)
+    v = rng.getrandbits(32) & 0xF80F01C0        # NZCVQ GE A I F
+    # data endianness: e=None draws it (big-endian in a quarter of the cases); scenarios whose oracles read memory little-endian keep e=0
+    v |= (int(rng.random() < 0.25) if e is None else int(e)) << 9
     v |= m | t << 5
     if t and it:
         v |= (it & 3) << 25 | (it >> 2) << 10
